@@ -31,7 +31,7 @@ use crate::{
     ff::Serializable,
     helpers::{
         BodyStream, BufferedBytesStream, LengthDelimitedStream, RecordsStream, SingleRecordStream,
-        stream::{Chunk, ChunkData, TryFlattenItersExt, process_slice_by_chunks, process_stream_by_chunks},
+        stream::{Chunk, ChunkData, ExactSizeStream, FixedLength, TryFlattenItersExt, process_slice_by_chunks, process_stream_by_chunks},
     },
 };
 
@@ -1347,6 +1347,80 @@ fn whole_body(env: &Env, src: &mut Src<'_>) -> CaseResult {
         .label(format!("end:{:?}", want.term)))
 }
 
+// ------------------------------------------------------------------------------------------
+// FixedLength: the length-carrying wrapper put around record streams
+// ------------------------------------------------------------------------------------------
+
+/// `FixedLength::new(inner, k)` around a stream of exactly k items (what its callers pass): the
+/// items come out unchanged, in order, none lost or repeated, a Pending of the inner stream is
+/// passed on, and after j items `len()` - "the length of the stream that remains" - is k - j.
+fn fixed_length(_env: &Env, src: &mut Src<'_>) -> CaseResult {
+    let k = src.idx(40);
+    let pend: Vec<u8> = (0..=k).map(|_| if src.below(3) == 0 { src.below(3) as u8 } else { 0 }).collect();
+    struct Scripted {
+        next: usize,
+        k: usize,
+        pend: Vec<u8>,
+    }
+    impl Stream for Scripted {
+        type Item = u64;
+        fn poll_next(mut self: Pin<&mut Self>, cx: &mut Context<'_>) -> Poll<Option<u64>> {
+            let i = self.next;
+            if self.pend[i] > 0 {
+                self.pend[i] -= 1;
+                cx.waker().wake_by_ref();
+                return Poll::Pending;
+            }
+            if i == self.k {
+                return Poll::Ready(None);
+            }
+            self.next += 1;
+            Poll::Ready(Some(0x1000 + i as u64 * 7))
+        }
+    }
+    let pendings: usize = pend.iter().map(|p| *p as usize).sum();
+    let case = json!({"items": k, "pending_before_item": pend});
+    let inner = Scripted { next: 0, k, pend };
+    let r = catch(move || {
+        let mut st = Box::pin(FixedLength::new(inner, k));
+        let waker = futures::task::noop_waker();
+        let mut cx = Context::from_waker(&waker);
+        let mut got: Vec<u64> = vec![];
+        let mut lens: Vec<usize> = vec![st.len()];
+        let mut pend_seen = 0usize;
+        let mut polls = 0usize;
+        loop {
+            polls += 1;
+            if polls > 4 * (k + pendings + 4) {
+                return Err("the wrapper keeps returning Pending although the inner stream is ready".to_string());
+            }
+            match st.as_mut().poll_next(&mut cx) {
+                Poll::Ready(Some(v)) => {
+                    got.push(v);
+                    lens.push(st.len());
+                }
+                Poll::Ready(None) => break,
+                Poll::Pending => pend_seen += 1,
+            }
+        }
+        Ok((got, lens, pend_seen))
+    });
+    let (got, lens, pend_seen) = match r {
+        Err((loc, msg)) => return Err(violation(format!("panic:FixedLength:{}", loc_file(&loc)), format!("FixedLength around {k} items with the matching length panicked at {loc}: {msg}"), case)),
+        Ok(Err(e)) => return Err(violation("fixed-length-stuck", e, case)),
+        Ok(Ok(x)) => x,
+    };
+    let want: Vec<u64> = (0..k).map(|i| 0x1000 + i as u64 * 7).collect();
+    if got != want {
+        return Err(violation("fixed-length-items-differ", format!("FixedLength yielded {} items, the inner stream {}; first difference at {:?}", got.len(), k, got.iter().zip(&want).position(|(a, b)| a != b)), case));
+    }
+    let want_lens: Vec<usize> = (0..=k).map(|j| k - j).collect();
+    if lens != want_lens {
+        return Err(violation("fixed-length-remaining-wrong", format!("len() after 0..={k} items was {lens:?}, the remaining length is {want_lens:?}"), case));
+    }
+    Ok(CaseOk::new(k > 0, &(k, pendings), json!({"items": k, "pendings": pendings})).label(format!("pending:{}", if pend_seen > 0 { "some" } else { "none" })).label(format!("items:{}", match k { 0 => "0", 1 => "1", _ => "2+" })))
+}
+
 pub fn subs(env: &Env) -> Vec<Sub> {
     let v = vec![
         Sub::exhaustive("probe_dropped_records", 4, 4, probe_dropped,
@@ -1360,6 +1434,8 @@ pub fn subs(env: &Env) -> Vec<Sub> {
         Sub::random("whole_body", 8, 384, 12_000, whole_body,
             "bodies handed to the parsers as ONE buffer through the crate's own body type (BodyStream::from(Vec<u8>), which cuts the buffer into network chunks itself): lengths k*2^j + d for 2^j in {4 KiB, 64 KiB, 1 MiB, 2 MiB}, k in 1..3, d in {0, -8..8, -2048..2048} (at most 3 MiB), index-carrying records, parsers Single/Batch (record sizes 3,4,7,8), LengthDelimited raw and flattened (wire record sizes 2, 256, 300, 1024, 65537) and Buffered<4096>: the parse equals the reference parse of the bytes (all records, in order, trailing partial data = error); non-trivial = at least one record")
             .shrink_iters(24),
+        Sub::random("fixed_length", 8, 4_000, 200_000, fixed_length,
+            "FixedLength (the length-carrying wrapper around record streams) around a scripted stream of k = 0..39 items with the matching length and Pending returns at generated positions: the items come out unchanged and in order, none lost or repeated, and after j items len() is k - j; no panic; non-trivial = k > 0"),
     ];
     v
 }
